@@ -1,5 +1,7 @@
 import Propka.Props.C07
 import Propka.Props.C14
+import Propka.Model.Setup
+import Propka.Proofs.Scoring
 /-! # C12 — incomplete structures degrade gracefully (the parts that are decision logic)
 
 Parser: whether a line can be converted does not depend on what came before it, so deleting any
@@ -142,3 +144,142 @@ theorem census_monotone (T : Tables) (to : Option (List (String × Int × String
         simp [List.filter_cons, this, hp, ih]
 
 end Propka.Groups
+
+/-! ## group set-up (`Model/Setup.lean`: `setup_atoms` of every group class, `set_center`, the ring search) -/
+namespace Propka.Setup
+open Propka.Scoring
+
+/-- **`setup_atoms` never fails except for a carboxylate-type ligand group without oxygens**: for every group class but `OCO`
+    the list handed to `set_center` is non-empty whatever atoms and bonds are present (every branch falls back to the group's
+    own atom), so `set_center` does not raise; for `OCO` the list is exactly the oxygens bonded to the atom. -/
+theorem setup_total (atoms : Tab AtomT) (c : Cls) (a : Nat) (hc : c ≠ .oco) : (setupAtoms atoms c a).centre ≠ [] := by
+  cases c
+  case oco => exact absurd rfl hc
+  case self => simp [setupAtoms]
+  case coo => simp only [setupAtoms]; split <;> simp_all
+  case his => simp only [setupAtoms]; split <;> simp_all
+  case arg => simp [setupAtoms]
+  case amd =>
+    simp only [setupAtoms]
+    split
+    · simp
+    · rename_i h
+      simp only [Bool.or_eq_true, List.isEmpty_iff, not_or] at h
+      intro e
+      exact h.1 (List.append_eq_nil_iff.mp e).1
+  case trp => simp [setupAtoms]
+  case cterm => simp only [setupAtoms]; split <;> simp
+  case hSelfBoth => simp [setupAtoms]
+  case bbc => simp [setupAtoms]
+  case cg => simp [setupAtoms]
+  case c2n => simp [setupAtoms]
+  case hSelfAcid => simp [setupAtoms]
+
+theorem setup_oco (atoms : Tab AtomT) (a : Nat) : (setupAtoms atoms .oco a).centre = bondedEl atoms a "O" := rfl
+
+/-- within two bonds of `a` -/
+def near2 (atoms : Tab AtomT) (a x : Nat) : Prop :=
+  x = a ∨ x ∈ (aget atoms a).bonded ∨ ∃ n ∈ (aget atoms a).bonded, x ∈ (aget atoms n).bonded
+
+theorem bondedEl_sub (atoms : Tab AtomT) (a : Nat) (el : String) (x : Nat) (h : x ∈ bondedEl atoms a el) : x ∈ (aget atoms a).bonded :=
+  (List.mem_filter.mp h).1
+
+theorem hydrogensOf_sub (atoms : Tab AtomT) (ns : List Nat) (x : Nat) (h : x ∈ hydrogensOf atoms ns) : ∃ n ∈ ns, x ∈ (aget atoms n).bonded := by
+  unfold hydrogensOf at h
+  obtain ⟨n, hn, hx⟩ := List.mem_flatMap.mp h
+  exact ⟨n, hn, bondedEl_sub atoms n "H" x hx⟩
+
+/-- **The interaction atoms of a group lie within two bonds of its defining atom** (for every class whose set-up does not
+    search a ring): the atom itself, its neighbours, and hydrogens or oxygens on those neighbours.  With C11 (bonds join atoms
+    at most 2.5 A apart) this is why the interaction atoms of a part of a structure belong to that part. -/
+theorem interaction_atoms_near (atoms : Tab AtomT) (c : Cls) (a : Nat) (hc : c ≠ .his) (x : Nat)
+    (hx : x ∈ (setupAtoms atoms c a).acid ∨ x ∈ (setupAtoms atoms c a).base ∨ x ∈ (setupAtoms atoms c a).centre) : near2 atoms a x := by
+  have B := bondedEl_sub atoms
+  have H := hydrogensOf_sub atoms
+  cases c <;> simp only [setupAtoms] at hx <;> try contradiction
+  all_goals unfold near2
+  -- self
+  · simp only [List.mem_singleton, or_self] at hx; exact Or.inl hx
+  -- coo
+  · rcases hx with h | h | h
+    · exact Or.inr (Or.inl (B a _ x h))
+    · exact Or.inr (Or.inl (B a _ x h))
+    · split at h
+      · exact Or.inl (List.mem_singleton.mp h)
+      · exact Or.inr (Or.inl (B a _ x h))
+  -- arg
+  · rcases hx with h | h | h
+    · rcases List.mem_append.mp h with h | h
+      · exact Or.inr (Or.inl (B a _ x h))
+      · obtain ⟨n, hn, hxn⟩ := H _ x h; exact Or.inr (Or.inr ⟨n, B a _ n hn, hxn⟩)
+    · exact Or.inr (Or.inl (B a _ x h))
+    · exact Or.inl (List.mem_singleton.mp h)
+  -- amd
+  · split at hx
+    · simp only [List.not_mem_nil, List.mem_singleton, false_or] at hx; exact Or.inl hx
+    · rename_i hne
+      simp only [Bool.or_eq_true, List.isEmpty_iff, not_or] at hne
+      rcases hx with h | h | h
+      · rcases List.mem_append.mp h with h | h
+        · exact Or.inr (Or.inl (B a _ x h))
+        · refine Or.inr (Or.inr ⟨(bondedEl atoms a "N").headD a, ?_, B _ _ x h⟩)
+          cases hl : bondedEl atoms a "N" with
+          | nil => exact absurd hl hne.2
+          | cons n ns => simp only [List.headD_cons]; exact B a "N" n (by rw [hl]; simp)
+      · exact Or.inr (Or.inl (B a _ x h))
+      · rcases List.mem_append.mp h with h | h <;> exact Or.inr (Or.inl (B a _ x h))
+  -- trp
+  · rcases hx with h | h | h
+    · rcases List.mem_append.mp h with h | h
+      · exact Or.inr (Or.inl (B a _ x h))
+      · exact Or.inl (List.mem_singleton.mp h)
+    · exact Or.inl (List.mem_singleton.mp h)
+    · exact Or.inl (List.mem_singleton.mp h)
+  -- cterm
+  · split at hx
+    · simp only [List.not_mem_nil, List.mem_singleton, false_or] at hx; exact Or.inl hx
+    · rename_i c0 cs hl
+      have hc0 : c0 ∈ (aget atoms a).bonded := B a "C" c0 (by rw [hl]; simp)
+      have : x ∈ [a] ++ (bondedEl atoms c0 "O").erase a := by rcases hx with h | h | h <;> exact h
+      rcases List.mem_append.mp this with h | h
+      · exact Or.inl (List.mem_singleton.mp h)
+      · exact Or.inr (Or.inr ⟨c0, hc0, B c0 _ x (List.mem_of_mem_erase h)⟩)
+  -- hSelfBoth
+  · rcases hx with h | h | h
+    · rcases List.mem_append.mp h with h | h
+      · exact Or.inr (Or.inl (B a _ x h))
+      · exact Or.inl (List.mem_singleton.mp h)
+    · rcases List.mem_append.mp h with h | h
+      · exact Or.inr (Or.inl (B a _ x h))
+      · exact Or.inl (List.mem_singleton.mp h)
+    · exact Or.inl (List.mem_singleton.mp h)
+  -- bbc
+  · rcases hx with h | h | h
+    · exact Or.inr (Or.inl (B a _ x h))
+    · exact Or.inr (Or.inl (B a _ x h))
+    · exact Or.inl (List.mem_singleton.mp h)
+  -- cg
+  · rcases hx with h | h | h
+    · rcases List.mem_append.mp h with h | h
+      · obtain ⟨n, hn, hxn⟩ := H _ x h; exact Or.inr (Or.inr ⟨n, B a _ n hn, hxn⟩)
+      · exact Or.inr (Or.inl (B a _ x h))
+    · exact Or.inr (Or.inl (B a _ x h))
+    · exact Or.inl (List.mem_singleton.mp h)
+  -- c2n
+  · rcases hx with h | h | h
+    · rcases List.mem_append.mp h with h | h
+      · obtain ⟨n, hn, hxn⟩ := H _ x h; exact Or.inr (Or.inr ⟨n, B a _ n (List.mem_filter.mp hn).1, hxn⟩)
+      · exact Or.inr (Or.inl (B a _ x (List.mem_filter.mp h).1))
+    · exact Or.inr (Or.inl (B a _ x (List.mem_filter.mp h).1))
+    · exact Or.inl (List.mem_singleton.mp h)
+  -- oco
+  · rcases hx with h | h | h <;> exact Or.inr (Or.inl (B a _ x h))
+  -- hSelfAcid
+  · rcases hx with h | h | h
+    · rcases List.mem_append.mp h with h | h
+      · exact Or.inr (Or.inl (B a _ x h))
+      · exact Or.inl (List.mem_singleton.mp h)
+    · exact Or.inl (List.mem_singleton.mp h)
+    · exact Or.inl (List.mem_singleton.mp h)
+
+end Propka.Setup
